@@ -489,6 +489,7 @@ func runC11(c *core.Ctx, o Options) {
 	c.Explanation += " nilcall also: every message builder (field of MessageBuilders) that a function on the inbound path calls without a nil test is one that Opts.validate looks at (an optional builder the validation never reads can be nil)."
 	c.Explanation += " nilcall also: every method call on an interface-typed struct field in the parser packages (fix, fix/encoding) is behind a nil test of the field, or every construction of that struct in the library stores a non-nil value in the field on every path (DefaultUnmarshaller.Validator)."
 	c.Explanation += " The connection reader (Conn.runReader) is part of the panic census (bounds, assertions; its read loop is exempt from the termination rule — C13.Z2). precond premise: the store's range lookup fails on a missing entry, so no nil message reaches the send path."
+	checkKeyValuePlain(c, "nilcall")
 	c.RuleMin = map[string]int{"assert": 4, "bounds": 24, "precond": 2, "term": 8, "nilcall": 8}
 	c.MinObl = 40
 }
